@@ -380,6 +380,20 @@ class S:
     def exp(self):
         return S(smt.exp_f(smt.real(self.t)))
 
+    def astype(self, t, **kw):
+        if t in (int, _np.int64, _np.int32, "int"):
+            if self.t.sort() == smt.I:
+                return self
+            # numpy truncates toward zero on float->int conversion
+            return S(smt.trunc_int(self.t))
+        return self
+
+    def ceil(self):
+        return S(-z3.ToReal(z3.ToInt(-smt.real(self.t))))
+
+    def absolute(self):
+        return abs(self)
+
     def conjugate(self):
         return self
 
@@ -465,7 +479,10 @@ class NPShim:
 
     def where(self, c, a=None, b=None):
         if a is None:
-            raise Unsupported("np.where with one argument")
+            c = _np.asarray(c, dtype=object)
+            if c.ndim != 1:
+                raise Unsupported("np.where with one argument on ndim %d" % c.ndim)
+            return (_np.array([i for i in range(c.shape[0]) if bool(c[i])], dtype=int),)
         c = _np.asarray(c, dtype=object)
         a, b = _np.broadcast_to(_np.asarray(a, dtype=object), c.shape), _np.broadcast_to(_np.asarray(b, dtype=object), c.shape)
         out = _np.empty(c.shape, dtype=object)
@@ -508,6 +525,9 @@ class NPShim:
 
     def floor(self, x):
         return _np.floor(lift(x)) if not isinstance(x, S) else x.floor()
+
+    def ceil(self, x):
+        return _np.ceil(lift(x)) if not isinstance(x, S) else x.ceil()
 
     def round(self, x, *a):
         return _np.rint(lift(x)) if not isinstance(x, S) else x.rint()
